@@ -1,2 +1,139 @@
-(* C19 (theorems are added as their proofs are completed) *)
-Require Import Cirbo.Model.Base Cirbo.Model.Gate Cirbo.Model.Circuit Cirbo.Model.Connect Cirbo.Model.History Cirbo.Model.WF.
+(* C19  Local rewrites keep or specialise the function exactly as documented.
+   Statements only; proofs live in Proofs/SemRename.v, SemReplaceInputs.v, SemRemove.v,
+   SemReplaceSub*.v (semantics) and Proofs/WF*.v (well-formedness, C02).
+
+   ren old new l := if l = old then new else l   (Proofs/SemRename.v)
+   Eval c a l v  is the relational semantics of Model/Sem.v (tied to the evaluators by C01). *)
+Require Import Cirbo.Model.Base Cirbo.Model.Gate Cirbo.Model.Den Cirbo.Model.Circuit Cirbo.Model.Connect
+        Cirbo.Model.Eval Cirbo.Model.Sem Cirbo.Model.History Cirbo.Model.WF.
+Require Import Cirbo.Proofs.WFEmplace Cirbo.Proofs.WFStep Cirbo.Proofs.SemExt Cirbo.Proofs.SemRename
+        Cirbo.Proofs.SemReplaceInputs Cirbo.Proofs.SemRemove Cirbo.Proofs.C19Final.
+
+(* ================= rename_gate ================= *)
+(* errors exactly when the old label is absent / the new one present *)
+Theorem C19_rename_outcome : forall c old new, WF c ->
+  (has_gate c old = false -> rename_gate c old new = Err CircuitGateIsAbsentError) /\
+  (has_gate c old = true -> has_gate c new = true ->
+   rename_gate c old new = Err CircuitGateAlreadyExistsError) /\
+  (has_gate c old = true -> has_gate c new = false -> exists c', rename_gate c old new = Ok c').
+Proof. exact rename_gate_outcome. Qed.
+
+Theorem C19_rename_ok_iff : forall c old new, WF c ->
+  ((exists c', rename_gate c old new = Ok c') <-> has_gate c old = true /\ has_gate c new = false).
+Proof. exact rename_gate_ok_iff. Qed.
+
+(* every reference points at the renamed gate: the gate map (keys and operands), inputs, outputs,
+   blocks and the users index are the images under the renaming; the renamed gate moves to the
+   end of the gate map *)
+Theorem C19_rename_references : forall c old new c', WF c -> rename_gate c old new = Ok c' ->
+  WF c' /\
+  (forall x g, dget (gates c) x = Some g ->
+     dget (gates c') (ren old new x) = Some (mkGate (gtyp g) (map (ren old new) (gops g)))) /\
+  (forall y g', dget (gates c') y = Some g' ->
+     exists x g, y = ren old new x /\ dget (gates c) x = Some g) /\
+  has_gate c' old = false /\
+  dkeys (gates c') = remove1 old (dkeys (gates c)) ++ [new] /\
+  inputs c' = map (ren old new) (inputs c) /\
+  outputs c' = map (ren old new) (outputs c) /\
+  blocks c' = map (fun kb => (fst kb, mkBlock (map (ren old new) (binputs (snd kb)))
+                                              (map (ren old new) (bgates (snd kb)))
+                                              (map (ren old new) (boutputs (snd kb))))) (blocks c) /\
+  (forall x u, has_gate c x = true -> has_gate c u = true ->
+     count (ren old new u) (users_of c' (ren old new x)) = count u (users_of c x)).
+Proof. exact rename_gate_state. Qed.
+
+(* the semantics is transported along the renaming, for every pair of assignments that agree
+   modulo the renaming on the inputs ... *)
+Theorem C19_rename_semantics : forall c c' old new, WF c -> rename_gate c old new = Ok c' ->
+  forall a a', (forall l, In l (inputs c) -> aval a' (ren old new l) = aval a l) ->
+  forall l v, has_gate c l = true -> (Eval c' a' (ren old new l) v <-> Eval c a l v).
+Proof. exact rename_gate_sem. Qed.
+
+(* ... in particular for the renamed assignment *)
+Theorem C19_rename_semantics_renamed_assignment : forall c old new c' a,
+  WF c -> rename_gate c old new = Ok c' -> dmem a new = false ->
+  forall l v, has_gate c l = true ->
+    (Eval c' (rename_assignment old new a) (ren old new l) v <-> Eval c a l v).
+Proof. exact rename_gate_sem_concrete. Qed.
+
+(* hence no truth table changes: the output vector is the same function of the (renamed) inputs *)
+Theorem C19_rename_truth_table : forall c c' old new, WF c -> rename_gate c old new = Ok c' ->
+  forall a a', (forall l, In l (inputs c) -> aval a' (ren old new l) = aval a l) ->
+  forall vs, Forall2 (Eval c' a') (outputs c') vs <-> Forall2 (Eval c a) (outputs c) vs.
+Proof. exact rename_gate_outputs_sem. Qed.
+
+(* ================= replace_inputs ================= *)
+(* the state: constants without operands replace the chosen INPUT gates, the remaining inputs keep
+   their original order, nothing else changes; the chosen labels are distinct INPUT gates *)
+Theorem C19_replace_inputs_state : forall c ts fs c',
+  NoDup (inputs c) -> replace_inputs c ts fs = Ok c' ->
+  (forall x, dget (gates c') x =
+             if memb x fs then Some (mkGate ALWAYS_FALSE [])
+             else if memb x ts then Some (mkGate ALWAYS_TRUE []) else dget (gates c) x) /\
+  inputs c' = filter (fun i => negb (memb i (ts ++ fs))) (inputs c) /\
+  outputs c' = outputs c /\ users c' = users c /\ blocks c' = blocks c /\
+  (forall l, In l (ts ++ fs) -> exists g, dget (gates c) l = Some g /\ gtyp g = INPUT) /\
+  NoDup (ts ++ fs).
+Proof. exact replace_inputs_spec. Qed.
+
+Theorem C19_replace_inputs_well_formed : forall c ts fs c',
+  Inv c -> replace_inputs c ts fs = Ok c' -> Inv c'.
+Proof. exact replace_inputs_inv'. Qed.
+
+(* exactly the cofactor: for every assignment a' of the remaining inputs and every extension a
+   of it by ts -> True, fs -> False, every gate has the same value *)
+Theorem C19_replace_inputs_cofactor : forall c ts fs c' a a',
+  WF c -> replace_inputs c ts fs = Ok c' ->
+  (forall l, In l ts -> aval a l = T) ->
+  (forall l, In l fs -> aval a l = F) ->
+  (forall l, In l (inputs c') -> aval a l = aval a' l) ->
+  forall l v, Eval c' a' l v <-> Eval c a l v.
+Proof. exact replace_inputs_sem. Qed.
+
+Theorem C19_replace_inputs_cofactor_assignment : forall c ts fs c' a',
+  WF c -> replace_inputs c ts fs = Ok c' ->
+  forall l v, Eval c' a' l v <-> Eval c (cofactor_assignment a' ts fs) l v.
+Proof. exact replace_inputs_cofactor. Qed.
+
+(* ================= remove_gate ================= *)
+(* succeeds only for an existing gate nobody uses *)
+Theorem C19_remove_gate_outcome : forall c l, WF c ->
+  (has_gate c l = false -> remove_gate c l = Err CircuitValidationError) /\
+  (has_gate c l = true -> users_of c l <> [] -> remove_gate c l = Err GateHasUsersError) /\
+  (has_gate c l = true -> users_of c l = [] -> exists c', remove_gate c l = Ok c').
+Proof. exact remove_gate_outcome. Qed.
+
+(* "nobody uses l" in terms of the gate map *)
+Theorem C19_no_users_iff : forall c l, WF c ->
+  (users_of c l = [] <-> forall u g, dget (gates c) u = Some g -> ~ In l (gops g)).
+Proof. exact no_users_iff. Qed.
+
+(* it is removed from the gate map, the inputs and the outputs; blocks mentioning it are dropped *)
+Theorem C19_remove_gate_state : forall c l c', WF c -> remove_gate c l = Ok c' ->
+  has_gate c l = true /\ users_of c l = [] /\
+  (forall x, dget (gates c') x = if leqb x l then None else dget (gates c) x) /\
+  inputs c' = remove1 l (inputs c) /\
+  outputs c' = remove_all l (outputs c) /\
+  blocks c' = filter (fun kb => negb (memb l (bgates (snd kb)) || memb l (binputs (snd kb))
+                                      || memb l (boutputs (snd kb)))) (blocks c).
+Proof. exact remove_gate_spec. Qed.
+
+Theorem C19_remove_gate_well_formed : forall c l c', WF c -> remove_gate c l = Ok c' -> WF c'.
+Proof. exact WFRemove.remove_gate_wf. Qed.
+
+(* every other gate keeps its value *)
+Theorem C19_remove_gate_semantics : forall c l c' a, WF c -> remove_gate c l = Ok c' ->
+  forall x v, x <> l -> (Eval c' a x v <-> Eval c a x v).
+Proof. exact remove_gate_sem. Qed.
+
+(* ================= non-vacuity ================= *)
+Example C19_example :
+  Inv C19_ex /\
+  (exists c', rename_gate C19_ex "g1" "h" = Ok c') /\
+  rename_gate C19_ex "q" "h" = Err CircuitGateIsAbsentError /\
+  rename_gate C19_ex "g1" "g2" = Err CircuitGateAlreadyExistsError /\
+  (exists c', replace_inputs C19_ex ["x"] ["z"] = Ok c' /\ inputs c' = ["y"]) /\
+  (exists c', remove_gate C19_ex "d" = Ok c') /\
+  remove_gate C19_ex "g1" = Err GateHasUsersError /\
+  remove_gate C19_ex "q" = Err CircuitValidationError.
+Proof. exact C19_ex_ok. Qed.
